@@ -83,6 +83,31 @@ def recognise_lis(f1: int, indirect: bool, tif: bool, table: bool, split: bool, 
         return ok and t == ('LISt' if tif else 'LIS')
 
 
+# LIS-79 logical record types other than log data / format specification / information tables / delimiters, by number (written from the
+# standard's list, not from LogiRec): operator input/response, system output, FLIC comment, blank record, picture, image, the boot and
+# program records, encrypted table and table dumps, data descriptor, and the logical EOF / BOT / EOT / EOM markers
+LIS_OTHER_TYPES = [224, 225, 227, 232, 234, 85, 86, 95, 96, 97, 100, 101, 102, 42, 47, 65, 137, 138, 139, 141]
+
+
+def recognise_lis_other_records(ti: int, tif: bool, where: int, split: bool) -> bool:
+    """
+    pre: 0 <= ti <= 19 and 0 <= where <= 2
+    post: _
+    """
+    ti, tif, where, split = mark.pick(ti, 0, 19), mark.pickb(tif), mark.pick(where, 0, 2), mark.pickb(split)
+    with mark.untraced():
+        import C06_logpass as H6
+        from spec import lis_lr_ref as L
+        # a LIS file with a record of that type (opaque body) before the format specification, after the data, or as the only record of the file
+        body = bytes([LIS_OTHER_TYPES[ti], 0]) + b'SOME TEXT 0123456789 \x00\xff' * 2
+        log = [L.dfsr(H6.CHS, False), L.data_record([L.i32(1000) + L.i32(7) + L.i16(1)], None)]
+        lrs = [L.file_head_tail(128)] + ([body] + log, log + [body], [body])[where] + [L.file_head_tail(129)]
+        data, pos = L.physical(lrs, tif, 23 if split else None, 0)
+        mark.hit()
+        t, ok = _typed(data)
+        return ok and t == ('LISt' if tif else 'LIS')
+
+
 def recognise_las(vers20: bool, ncurves: int, wrap: bool, lead: int, comments: bool, blanks: bool, c0: int) -> bool:
     """
     pre: 2 <= ncurves <= 4 and 0 <= lead <= 2 and 0 <= c0 <= 7
